@@ -55,6 +55,18 @@ PROPS = {
         "assumptions": ["a goroutine whose select has a closed channel case exits", "net.Conn.Close releases the socket"],
         "modelled": "tcpConn/wsConn reading, writing, OnPacket goroutines and Close; client connection slot across recovery",
     },
+    "C17": {
+        "race": True,
+        "crash_is_violation": True,
+        "design_ref": "DESIGN.md section 6 (C17)",
+        "projection": "race detector reports with both access stacks inside the library",
+        "mismatch_is_input": True,
+        "timeout": {"quick": 1500, "thorough": 6000},
+        "level_text": "Translator + Coq theorem + race detector. harness/cmd/vaccess (go/types over /repo/go/client, rerun whenever the sources change) regenerates Gen/Access.v: every access to a field of the client, connection and callback structs and to the single-writer / single-reader state of a gorilla connection, with read/write, atomic, set-up phase, and the locks held there - lexically and, by a fixpoint over the call graph, at every call site of the enclosing function; goroutines that exist once per object hold a pseudo-lock (table with justifications in the translator). Coq: Theorem C17_inventory_disciplined (by computation on the regenerated inventory): every two conflicting accesses outside the set-up phase share a lock, not both in read mode. Theorem disciplined_no_race / C17_no_data_race (lockset soundness, proved for all traces of any length and any number of threads under Mutex/RWMutex semantics): in every execution that holds the inventory's locks at its accesses, two conflicting accesses by different threads are separated by a release of a common lock by the first and a later acquisition by the second (happens-before), i.e. no data race. Search for a concrete schedule and tie to the real code: the scenario suites built with -race (mixed Do / AuthInfo / pushes / pings / keepalive / loss+recovery / close packet / Close on TCP and WebSocket; split frames against concurrent packing; write-queue overflow bursts; the other client suites again); every report whose two stacks are inside the library is a violation. PARTIAL: the codec packages (go, v1, v2, gzip: sync.Pool ownership, registries filled at init) are covered by the race detector runs only, not by the inventory.",
+        "level_note": "Trusted: kernel; the translator (lock tracking is syntactic per block with branch meets, deferred closures get no local locks, interface calls resolve to every implementation in the package; single-instance goroutine table and set-up phase table are human-justified inputs); the Go race detector for the dynamic part. The theorem is about executions that follow the inventory; that the compiled code follows it is the translator's claim, cross-checked by the detector on the explored schedules.",
+        "assumptions": ["sync.Mutex / RWMutex semantics as in Model/Races.v wf", "documented use: handlers and options set before Dial; Dial once per client", "gorilla/websocket: one concurrent reader and one concurrent writer"],
+        "modelled": "every field access of client, tcpConn, wsConn, closeCallback, DialOptions; connDialers; gorilla writer/reader state; locks client.RWMutex, recvsMu, stateMu, closeCallback.mu; goroutine confinement",
+    },
     "C15": {
         "design_ref": "DESIGN.md section 6 (C15)",
         "projection": "per tick: heartbeat (request id, heartbeat id) or recycle; echo of the peer's heartbeat",
